@@ -17,6 +17,8 @@
 (*        while q is empty and a sender only while q is full (no lost wake-up of RingChannel);                                *)
 (*   Quiesce{left}            : after the harness drained the queue with ordinary pops nothing is pending and                *)
 (*        Len(q) = left = read_available() (so every value reported pushed was received exactly once).                       *)
+(*   Gate{..}                 : bookkeeping of the directed scenarios (a thread held right before idler.fetch_add /           *)
+(*        send_waiters.fetch_add while the partner call completes); no condition.                                           *)
 (*   A Hang event has no action.                                                                                              *)
 (* Silent steps are taken only right before a Resp / Settle / Quiesce event (a linearization point commutes with later        *)
 (* invocations, so this loses no behaviour).                                                                                  *)
@@ -72,11 +74,13 @@ Settle == /\ Ev("Settle")
                 /\ p.st = "inv"
                 /\ IF R.blocked[i][2] = 1 THEN p.op = "send" /\ Len(q) = cap       \* a sender sleeps only on a full queue
                                           ELSE p.op = "recv" /\ q = <<>>           \* a receiver sleeps only on an empty queue
-          /\ \A t \in T \ BlockedSet : pend[t].op = "none"
+          /\ \A t \in T \ BlockedSet : pend[t].op = "none" \/ pend[t].st = "inv"    \* (a call invoked after the inspection, not yet effective)
           /\ UNCHANGED <<cap, pfail, q, pend>>
 Quiesce == /\ Ev("Quiesce") /\ \A t \in T : pend[t].op = "none" /\ Len(q) = R.left
            /\ UNCHANGED <<cap, pfail, q, pend>>
-Next == Reset \/ Inv \/ Resp \/ Settle \/ Quiesce \/ \E t \in T : LinPush(t) \/ LinPop(t)
+\* directed scenario bookkeeping (whether the held thread reached its gate): informational
+Gate == Ev("Gate") /\ UNCHANGED <<cap, pfail, q, pend>>
+Next == Reset \/ Inv \/ Resp \/ Settle \/ Quiesce \/ Gate \/ \E t \in T : LinPush(t) \/ LinPop(t)
 Spec == Init /\ [][Next]_vars
 NotAccepted == l <= Len(Tr)
 Progress == TLCSet(1, IF TLCGet(1) < l THEN l ELSE TLCGet(1))
